@@ -568,11 +568,11 @@ theorem plain_parseOrder (hc : PlainCls c) : parseOrder c = some c.dataMixins :=
   unfold parseOrder
   generalize c.dataMixins.length = n
   cases hl : c.dataMixins with
-  | nil => simp
+  | nil => simp [parseOrderF]
   | cons m ms =>
     obtain ⟨d', hd⟩ := plain_parseRound hc (m :: ms) false
     simp only [parseOrderF, hd]
-    cases n <;> simp [parseOrderF]
+    cases n <;> simp
 
 
 /-! ### one `mix_parse` call on the exported image -/
@@ -862,11 +862,10 @@ theorem plain_validateMixin2 (hc : PlainCls c) (hk : PlainCfg c cfg) (m : MixinN
   simp only [plain_appData2 hc hk, r0, r4, r8, cleanIvt_length _ hA, e1, e2, e3, e4, e5, e6]
 
 theorem plain_validate2 (hc : PlainCls c) (hk : PlainCfg c cfg) : validate c (plainCfg2 cfg) = .ok () := by
-  rw [← hk.hval]
+  have hfe : validateMixin c (plainCfg2 cfg) = validateMixin c cfg := funext (plain_validateMixin2 hc hk)
   unfold validate
-  congr 1
-  funext m
-  exact plain_validateMixin2 hc hk m
+  rw [hfe]
+  exact hk.hval
 
 theorem plain_mixLen2 (hc : PlainCls c) (hk : PlainCfg c cfg) (m : MixinName) :
     mixLen c (plainCfg2 cfg) m = mixLen c cfg m := by
@@ -881,11 +880,9 @@ theorem plain_mixLen2 (hc : PlainCls c) (hk : PlainCfg c cfg) (m : MixinName) :
     rfl
 
 theorem plain_totalLen2 (hc : PlainCls c) (hk : PlainCfg c cfg) : totalLen c (plainCfg2 cfg) = totalLen c cfg := by
+  have hfe : mixLen c (plainCfg2 cfg) = mixLen c cfg := funext (plain_mixLen2 hc hk)
   unfold totalLen
-  congr 1
-  apply List.map_congr_left
-  intro m _
-  exact plain_mixLen2 hc hk m
+  rw [hfe]
 
 theorem plainCfg_2 (hc : PlainCls c) (hk : PlainCfg c cfg) : PlainCfg c (plainCfg2 cfg) :=
   { hval := plain_validate2 hc hk
